@@ -121,11 +121,14 @@ func toMatcherMap(lhSelector *parser.VectorSelector) map[string]*labels.Matcher 
 	return lhMatchers
 }
 
+// duplicateExists returns true if the other selector has a different matcher
+// on the same label. Such a matcher must not be overwritten, so the selectors
+// are left alone.
 func duplicateExists(matchers map[string]*labels.Matcher, matcher *labels.Matcher) bool {
 	existing, ok := matchers[matcher.Name]
 	if !ok {
 		return false
 	}
 
-	return existing.String() == matcher.String()
+	return existing.String() != matcher.String()
 }
